@@ -973,6 +973,7 @@ func pkgShort(path string) string {
 type frameAllowed struct{ base, idx string }
 
 type frameSpec struct {
+	except  []string // assigns except(...): everything may change but the state of these packages/types
 	allow   map[string][]frameAllowed
 	ghostOK map[string]bool
 	allKeys map[string]bool
@@ -990,6 +991,10 @@ func (x *Exec) frameSpecOf(st *State) *frameSpec {
 	}
 	pkg := x.fn.Pkg.Pkg
 	for _, a := range x.fc.Assigns {
+		if ce, ok := a.Expr.(*ast.CallExpr); ok && identName(ce.Fun) == "except" {
+			fs.except = x.eng.exceptPkgs(pkg.Path(), ce)
+			continue
+		}
 		if ce, ok := a.Expr.(*ast.CallExpr); ok && (identName(ce.Fun) == "all" || identName(ce.Fun) == "elems") {
 			for k := range x.eng.allKeysOf(pkg.Path(), ce) {
 				allKeys[k] = true
@@ -1065,6 +1070,9 @@ func (x *Exec) loopFrameGoals(st *State, keys map[string]bool) []string {
 		if key == "*" || strings.HasPrefix(key, "*|") || strings.HasPrefix(key, "G|") || key == "L|" || fs.allKeys[key] {
 			continue
 		}
+		if fs.except != nil && !keyInPkgs(key, fs.except) {
+			continue
+		}
 		srt := x.arrSort[key]
 		if srt == "" {
 			continue
@@ -1085,6 +1093,23 @@ func (x *Exec) frameObligations(st *State) {
 	var goals []string
 	var gkeys []string
 	for _, key := range sortedKeys(st.written) {
+		if fs.except != nil && strings.HasPrefix(key, "*|") {
+			// a callee's partial havoc is within this frame when it leaves alone at least what this function promises
+			left := strings.Split(key[2:], ",")
+			ok := true
+			for _, p := range fs.except {
+				found := false
+				for _, q := range left {
+					if p == q || strings.HasPrefix(p, q+".") {
+						found = true
+					}
+				}
+				ok = ok && found
+			}
+			if ok {
+				continue
+			}
+		}
 		if key == "*" || strings.HasPrefix(key, "*|") {
 			x.emit(st, "frame:heap", "frame", "whole heap havocked by a callee without frame", "false")
 			continue
@@ -1102,6 +1127,9 @@ func (x *Exec) frameObligations(st *State) {
 			continue
 		}
 		if key == "L|" || allKeys[key] {
+			continue
+		}
+		if fs.except != nil && !keyInPkgs(key, fs.except) {
 			continue
 		}
 		srt := x.arrSort[key]
@@ -1445,6 +1473,12 @@ func (e *Engine) initOnlyErrGlobal(g *ssa.Global) bool {
 func (e *Engine) exceptPkgs(pkgPath string, ce *ast.CallExpr) []string {
 	var out []string
 	for _, a := range ce.Args {
+		tname := ""
+		if se, isSel := a.(*ast.SelectorExpr); isSel {
+			// alias.Type: the state of this one type
+			tname = "." + se.Sel.Name
+			a = se.X
+		}
 		id, ok := a.(*ast.Ident)
 		if !ok {
 			return nil
@@ -1462,7 +1496,7 @@ func (e *Engine) exceptPkgs(pkgPath string, ce *ast.CallExpr) []string {
 			return nil
 		}
 		full = strings.TrimPrefix(full, modulePath+"/")
-		out = append(out, strings.ReplaceAll(full, "/", "."))
+		out = append(out, strings.ReplaceAll(full, "/", ".")+tname)
 	}
 	sort.Strings(out)
 	return out
